@@ -106,6 +106,8 @@ class Interp:
         if isinstance(node, ast.Attribute):
             base = self.ev(node.value, env)
             return getattr(base, node.attr)
+        if isinstance(node, (ast.Tuple, ast.List)):
+            return [self.ev(e, env) for e in node.elts]
         raise Unsupported(type(node).__name__)
 
     def cmp(self, op, a, b):
@@ -177,7 +179,7 @@ class Interp:
             return out
         if isinstance(st, ast.For):
             it = self.ev(st.iter, env)
-            if is_sym(it) or st.orelse:
+            if is_sym(it) or st.orelse or not isinstance(st.target, ast.Name):
                 raise Unsupported("for")
             states = [(env, pc)]
             for x in it:
